@@ -7,6 +7,7 @@ from hypothesis import strategies as st
 from .. import estimators as E
 from .. import gens
 from ..harness import Sub, Violation
+from ..spy import BatchRecorder, rows_to_indices
 
 QUICK_SCALE = 4  # quick budgets below are multiplied by this (kept at about half a minute on 8 processes)
 
@@ -172,7 +173,64 @@ def oracle_large(case):
     return {"nontrivial": bool(len(np.unique(pred)) >= 2), "classes": [s["cls"] + ":large"]}
 
 
+@st.composite
+def forward_case(draw):
+    s = draw(E.est_spec(classes=INDUCTIVE, n_max=12, d_max=4, iter_max=3, k_max=4, hidden_max=4, n_min=3,
+                        kernel_forms=("named", "callable"), metric_forms=("named", "callable"), xkinds=("normal", "grid")))
+    return {"spec": s}
+
+
+def oracle_forward(case):
+    """'reproduces what fit stored / those obtained during fit': the predictions the training loop works on at a step are
+    the predictions predict_proba gives for the same samples with the weights of that step"""
+    from .c10 import unique_data
+    s = case["spec"]
+    label = E.label(s)
+    X = unique_data(s)
+    est, y = E.build(s, X)
+    rec = BatchRecorder(est, keep=False)
+    inner = est._compute_grads
+    seen = {"steps": 0, "compared": 0, "partial": 0}
+
+    def watch(Xb, y_pred, gradient):
+        seen["steps"] += 1
+        full = np.asarray(rec.epochs[-1]["full"])
+        idx = rows_to_indices(full, np.asarray(rec.last[0]))
+        if isinstance(idx, list) and len(idx) == len(y_pred):
+            kept = np.array(y_pred, copy=True)
+            try:
+                P = est.predict_proba(X)
+            except Exception as e:
+                P = None
+                seen["predict_raised"] = f"{type(e).__name__}: {e}"
+            if P is not None:
+                seen["compared"] += 1
+                seen["partial"] += int(len(idx) < len(X))
+                if P.shape[0] != len(X) or np.max(np.abs(P[idx] - kept)) > 1e-10:
+                    raise Violation(f"{label}: step {seen['steps']}: the predictions the training loop computed for samples {idx} differ "
+                                    f"from predict_proba of the same samples with the same weights by "
+                                    f"{np.max(np.abs(P[idx] - kept))!r}")
+        return inner(Xb, y_pred, gradient)
+
+    est._compute_grads = watch
+    with warnings.catch_warnings():
+        warnings.simplefilter("ignore")
+        with np.errstate(all="ignore"):
+            try:
+                est.fit(X, y)
+            except Violation:
+                raise
+            except Exception as e:
+                return {"nontrivial": False, "classes": [s["cls"] + ":fit_raised"], "note": f"{type(e).__name__}: {e}"}
+            P = est.predict_proba(X)
+            if not np.array_equal(P.argmax(1), est.labels_) and np.all(np.sort(P, 1)[:, -1] - np.sort(P, 1)[:, -2 if P.shape[1] > 1 else -1] > 1e-8):
+                raise Violation(f"{label}: predicting the training data does not reproduce labels_")
+    return {"nontrivial": bool(seen["compared"] >= 1), "classes": [s["cls"], "batches:" + ("partial" if seen["partial"] else "full")],
+            "counts": {k: v for k, v in seen.items() if isinstance(v, int)}, **({"note": seen["predict_raised"]} if "predict_raised" in seen else {})}
+
+
 def subs():
     return [Sub("large_queries", large_case(), oracle_large, 120, 2500, "query arrays of 1030-4300 rows"),
             Sub("gradient_models", case_strategy(False), oracle, 1500, 30000, "inductive gradient-trained estimators"),
+            Sub("training_forward", forward_case(), oracle_forward, 400, 10000, "training-time predictions == predict_proba with the same weights"),
             Sub("kauri", case_strategy(True), oracle, 600, 12000, "Kauri routing")]
